@@ -511,11 +511,12 @@ def select_sequences(log, tier, light=False):
     """Sequences of saves for one (model, container, history): tuples of steps, the last one always a clean save.
 
     With F(p) = fault p raises instead of the call, A(p) = right after it (not renames/moves), per scenario:
-      twice      F(p) F(p) ok            p = first and last (thorough: and middle; light: first only) occurrence per
-                                         (operation, call site)
+      twice      F(p) F(p) ok            p = first and last (thorough: and middle; light: first only, every 2nd of them
+                                         when there are more than 30) occurrence per (operation, call site)
       four       F(p) x4 ok              p = first occurrences (quick: every 3rd)   [more failures than backup slots]
       three      F(p) x3 ok              thorough: every 2nd first occurrence
-      mixed      F(p) F(q) ok            p != q over one fault point per phase of the save (quick: each p with 2 q's)
+      mixed      F(p) F(q) ok            p != q over one fault point per phase of the save (quick: each p with 2 q's,
+                                         light: 1)
       completed  A(p) F(p) ok, A(p) A(p) ok   (a save that raised after doing the work, then one that did not)
       alternate  F(p) ok F(p) ok         failures separated by good saves"""
     ks = keyed(log)
@@ -527,6 +528,8 @@ def select_sequences(log, tier, light=False):
         rep = [ks[i] for i in sorted({j for v in by.values() for j in (v[0], v[len(v) // 2], v[-1])})]
     else:
         rep = [ks[i] for i in sorted({j for v in by.values() for j in ((v[0],) if light else (v[0], v[-1]))})]
+        if light and len(rep) > 30:
+            rep = rep[::2]
     F = lambda q: (q, "before", "EIO")
     A = lambda q: (q, "after", "EIO")
     can_after = lambda q: q[0] not in NO_AFTER
@@ -542,7 +545,7 @@ def select_sequences(log, tier, light=False):
     for i, q in enumerate(phase):
         others = [r for r in phase if r != q]
         if tier != "thorough":
-            others = [others[(i + d) % len(others)] for d in (0, len(others) // 2)] if others else []
+            others = [others[(i + d) % len(others)] for d in ((0,) if light else (0, len(others) // 2))] if others else []
         for r in others:
             out.append((F(q), F(r), None))
     for q in (firsts if tier == "thorough" else phase):
@@ -672,7 +675,7 @@ def run(res, tier, seed):
                   "three times (thorough) / four times in a row, two different faults in a row (one fault point per phase of the save), "
                   "a fault raised after the work then the same fault instead of it, faults separated by clean saves; fault points = "
                   "%s occurrence per (operation, call site) of the clean log, named by (operation, site, occurrence)"
-                  % ("/".join(SEQ_CONTAINERS), "models pickled k=1,4 and io k=4" if tier == "quick" else "pickled x k in 0,1,2,4, plain and io x k in 1,4",
+                  % ("/".join(SEQ_CONTAINERS), "models pickled k=4 (zip: and k=1) and io k=4" if tier == "quick" else "pickled x k in 0,1,2,4, plain and io x k in 1,4",
                      "first (zip, pickled, k=4: and last)" if tier == "quick" else "first, middle and last"))
     res.rule = ("exhaustive over the bound; one evaluation = one injected fault followed by the whole contract (4 slots read back, registry, flags, "
                 "model, following save and load); non-trivial when the fault fired (the call with that index was reached); "
@@ -709,7 +712,7 @@ def run(res, tier, seed):
         tasks.sort(key=lambda t: (t[4][0][0] // 12, scenarios.index(t[:4])))
         # sequences of saves on the same path (several consecutive failures, failures between good saves)
         seq_scen = [("seq", n, c, k) for n in (("pickled", "io") if tier == "quick" else models) for c in SEQ_CONTAINERS
-                    for k in (((1, 4) if n == "pickled" else (4,)) if tier == "quick" else ((0, 1, 2, 4) if n == "pickled" else (1, 4)))]
+                    for k in (((1, 4) if (n, c) == ("pickled", "zip") else (4,)) if tier == "quick" else ((0, 1, 2, 4) if n == "pickled" else (1, 4)))]
         seq_tasks, nseq = [], 0
         for si, sc in enumerate(seq_scen):
             sqs = select_sequences(logs[("save",) + sc[1:]], tier, light=(tier == "quick" and (sc[1] == "io" or sc[2:] != ("zip", 4))))
